@@ -354,6 +354,21 @@ def sibling_paths(col, gcode, paths, I, own=True):
         where = 'GcodeHandlers._handle_%s' % gcode
         if gcode in HANDLER_FRAME:
             handler_frame(col, gcode, p, where)
+        if gcode == 'G92' and 'V' in f.pstatus('E'):
+            # G92 E<v> makes v the logical extruder position - for every v, zero included (slicers reset with G92 E0)
+            from .pathfacts import CMDKEY, consistent
+            eo = '%s.position.E_AXIS' % S_OID
+            want = Poly.sym('p:E') * Poly.sym(eo + '.unitMultiplier') + Poly.sym(eo + '.offset') + Poly.sym(eo + '.homeOffset')
+            # (absolute extrusion: with a relative extruder only differences of the tracked E are ever used)
+            assume = {('param', CMDKEY, 'E'): frozenset(['V']), ('fld', eo, 'absoluteMode'): frozenset([True])}
+            if consistent(p.st, assume):
+                for v in f.final(eo, 'current', assume):
+                    if isinstance(v, Num) and v.p != want:
+                        col.report('C08.R3', where, 'G92 E word not applied (tracked E becomes %r)' % (v.p,),
+                                   'after G92 E<v> the tracked extruder position must be the logical value v (here %r) whatever v is; '
+                                   'on some path (for example v = 0) it is not, so the next generated G92 E re-labels the printer\'s '
+                                   'register with a stale value' % (want,), detail={'entry': p.entry, 'decisions': f.decisions()[-6:]})
+                        break
         if gcode in ('G20', 'G21'):
             want = 25.4 if gcode == 'G20' else 1
             got = writes.get('unitMultiplier', {})
